@@ -329,12 +329,12 @@ Proof.
   exists A. repeat split; auto. lia.
 Qed.
 
-Lemma h_end_fl_ok cpi (w : world) a auth w' :
-  h_end_fl R cpi w a auth = Ok w' ->
+Lemma h_end_fl_ok cpi (w : world) a auth nr w' :
+  h_end_fl R cpi w a auth nr = Ok w' ->
   cpi = false /\
   exists A, w_accts w a = Some A /\ a_auth A = auth /\
     f_disabled (a_fl A) = false /\ f_recv (a_fl A) = false /\ f_frozen (a_fl A) = false /\
-    e_init_check R (w_bw w) (a_pf A) = Ok tt /\
+    (if nr then e_init_check_norem R (a_pf A) else e_init_check R (w_bw w) (a_pf A)) = Ok tt /\
     w' = set_acct w a (upd_pf (upd_fl A (set_fl (a_fl A) false)) (a_pf A) false).
 Proof.
   unfold h_end_fl. intros H. apply tx_bind_ok in H as (A & EA & H). apply get_acct_ok in EA.
@@ -360,7 +360,7 @@ Inductive step_kind (ixes : list ixd) (cur : Z) (cpi : bool) (w w' : world) (d :
 | SEnd K a s : d_disc d = end_disc K -> hd_is a d ->
     h_end R K cpi w a s = Ok w' -> step_kind ixes cur cpi w w' d
 | SStartFL a auth e : hd_is a d -> h_start_fl ixes cur cpi w a auth e = Ok w' -> step_kind ixes cur cpi w w' d
-| SEndFL a auth : hd_is a d -> h_end_fl R cpi w a auth = Ok w' -> step_kind ixes cur cpi w w' d.
+| SEndFL a auth nr : hd_is a d -> h_end_fl R cpi w a auth nr = Ok w' -> step_kind ixes cur cpi w w' d.
 
 Lemma disp_consts :
   DISP_SL = IX_SL /\ DISP_SD = IX_SD /\ DISP_EL = IX_EL /\ DISP_ED = IX_ED /\ DISP_SF = IX_SF /\
@@ -450,7 +450,7 @@ Qed.
 
 Lemma run_mfi_endfl ixes cur cpi w d w' :
   d_disc d = IX_EF -> run_mfi R ixes cur cpi w d = Ok w' ->
-  exists a s, hd_is a d /\ h_end_fl R cpi w a s = Ok w'.
+  exists a s nr, hd_is a d /\ h_end_fl R cpi w a s nr = Ok w'.
 Proof.
   unfold run_mfi. destruct (Z.ltb_spec (d_len d) 8) as [L|L]; [discriminate|]. intros E H.
   rewrite E in H.
@@ -458,7 +458,7 @@ Proof.
   change (IX_EF =? DISP_EL) with false in H. change (IX_EF =? DISP_ED) with false in H.
   change (IX_EF =? DISP_SF) with false in H. change (IX_EF =? DISP_EF) with true in H. cbn match in H.
   apply tx_bind_ok in H as (a & Ea & H). apply tx_bind_ok in H as (s & Es & H).
-  exists a, s. split; [apply acct_at_0; exact Ea | exact H].
+  eexists a, s, _. split; [apply acct_at_0; exact Ea | exact H].
 Qed.
 
 
@@ -601,7 +601,7 @@ Proof.
   unfold exec_call. intros H I Hc. destruct (prog_eqb (d_prog d) PMfi) eqn:Ep.
   2:{ apply tx_Ok_inj in H; subst w'. split; [exact I|]. intros _ P. rewrite P in Ep. discriminate. }
   apply prog_eqb_eq in Ep. split.
-  - pose proof (run_mfi_kind _ _ _ _ _ _ H) as [L SK]. destruct SK as [Q | K' b recv D Hb Hs | K' b s D Hb He | b au e Hb Hs | b au Hb He].
+  - pose proof (run_mfi_kind _ _ _ _ _ _ H) as [L SK]. destruct SK as [Q | K' b recv D Hb Hs | K' b s D Hb He | b au e Hb Hs | b au nr Hb He].
     + exact (irc_rquiet _ _ _ _ _ _ _ I (quiet_r _ _ Q)).
     + (* a second start: impossible *)
       exfalso. apply h_start_ok in Hs as (V & _). pose proof (validate_cpi_false _ _ _ _ V) as ->.
@@ -655,7 +655,7 @@ Lemma exec_call_cpi_quiet ixes cur w d w' : exec_call R ixes cur true w d = Ok w
 Proof.
   unfold exec_call. destruct (prog_eqb (d_prog d) PMfi).
   - intros H. pose proof (run_mfi_kind _ _ _ _ _ _ H) as [L SK].
-    destruct SK as [Q | K' b recv D Hb Hs | K' b s D Hb He | b au e Hb Hs | b au Hb He].
+    destruct SK as [Q | K' b recv D Hb Hs | K' b s D Hb He | b au e Hb Hs | b au nr Hb He].
     + exact Q.
     + apply h_start_ok in Hs as (V & _). apply validate_cpi_false in V. discriminate.
     + apply h_end_ok in He as (V & _). discriminate.
@@ -754,7 +754,7 @@ Proof.
   destruct (exec_top_cases _ _ _ _ _ H) as [[NP Q] | [P Hr]].
   - left. apply Keep. exact (clean_rquiet _ _ C (quiet_r _ _ Q)).
   - pose proof (run_mfi_kind _ _ _ _ _ _ Hr) as [L SK].
-    destruct SK as [Q | K b recv D Hb Hs | K b s D Hb He | b au e Hb Hs | b au Hb He].
+    destruct SK as [Q | K b recv D Hb Hs | K b s D Hb He | b au e Hb Hs | b au nr Hb He].
     + left. apply Keep. exact (clean_rquiet _ _ C (quiet_r _ _ Q)).
     + right. apply h_start_ok in Hs as (V & A & A' & EA & -> & G0 & F1 & F2 & F3 & G1 & G2 & G3 & G4 & G5 & G6 & G7 & SC & _).
       exists K, b, (a_cache A'), A. split; [|split; [exact EA | split; [exact F1 | exact SC]]].
@@ -940,7 +940,7 @@ Lemma exec_top_endfl_clears ixes n w t w' k :
   exec_top R ixes n w t = Ok w' -> is_endfl_for k (t_d t) -> ofl w' k = false.
 Proof.
   intros H (P & L & D & Hk). destruct (exec_top_cases _ _ _ _ _ H) as [[NP _] | [_ Hr]]; [contradiction|].
-  apply run_mfi_endfl in Hr as (a & s & Ha & He); [|exact D].
+  apply run_mfi_endfl in Hr as (a & s & nr & Ha & He); [|exact D].
   assert (a = k) by (eapply hd_is_inj; [exact Ha | exact Hk]). subst a.
   apply h_end_fl_ok in He as (_ & A & EA & _ & _ & _ & _ & _ & ->).
   unfold ofl. rewrite accts_set, Z.eqb_refl. reflexivity.
@@ -956,7 +956,7 @@ Proof.
   { destruct (exec_top_cases _ _ _ _ _ H) as [[NP Q] | [P Hr]].
     - exact (invF_fquiet _ _ _ _ I (quiet_f _ _ Q)).
     - pose proof (run_mfi_kind _ _ _ _ _ _ Hr) as [L SK].
-      destruct SK as [Q | K b recv D Hb Hs | K b s D Hb He | b au e Hb Hs | b au Hb He].
+      destruct SK as [Q | K b recv D Hb Hs | K b s D Hb He | b au e Hb Hs | b au nr Hb He].
       + exact (invF_fquiet _ _ _ _ I (quiet_f _ _ Q)).
       + apply h_start_ok in Hs as (_ & A & A' & EA & -> & _ & _ & F2 & _ & _ & G2 & _ & _ & G5 & _).
         apply (invF_fquiet _ _ _ _ I). eapply fquiet_set; [exact EA | congruence | exact G5].
@@ -1088,7 +1088,7 @@ Theorem receivership_blocks (w : world) a A :
   (forall s b m, is_ok (h_borrow R w a s b m) = false) /\
   (forall s b m, is_ok (h_deposit R w a s b m) = false) /\
   (forall ixes cur cpi au e, is_ok (h_start_fl ixes cur cpi w a au e) = false) /\
-  (forall cpi au, is_ok (h_end_fl R cpi w a au) = false).
+  (forall cpi au nr, is_ok (h_end_fl R cpi w a au nr) = false).
 Proof.
   intros EA Fr. repeat split; intros; apply is_ok_false; intros v0 H.
   - apply h_start_ok in H as (_ & A0 & _ & E0 & _ & _ & F & _). rewrite EA in E0; inversion E0; subst. congruence.
@@ -1158,7 +1158,7 @@ Theorem bracket_ops_not_in_cpi (w : world) :
   (forall K ixes cur a r, is_ok (h_start R K ixes cur true w a r) = false) /\
   (forall K a s, is_ok (h_end R K true w a s) = false) /\
   (forall ixes cur a au e, is_ok (h_start_fl ixes cur true w a au e) = false) /\
-  (forall a au, is_ok (h_end_fl R true w a au) = false).
+  (forall a au nr, is_ok (h_end_fl R true w a au nr) = false).
 Proof.
   repeat split; intros; apply is_ok_false; intros v H.
   - apply h_start_ok in H as (V & _). apply validate_cpi_false in V. discriminate.
@@ -1197,11 +1197,11 @@ Proof.
   - intros k N. rewrite accts_set. rewrite (proj2 (Z.eqb_neq k a) N). reflexivity.
 Qed.
 
-Theorem end_fl_facts cpi (w : world) a auth w' :
-  h_end_fl R cpi w a auth = Ok w' ->
+Theorem end_fl_facts cpi (w : world) a auth nr w' :
+  h_end_fl R cpi w a auth nr = Ok w' ->
   cpi = false /\
   exists A, w_accts w a = Some A /\ a_auth A = auth /\
-    e_init_check R (w_bw w) (a_pf A) = Ok tt /\
+    (if nr then e_init_check_norem R (a_pf A) else e_init_check R (w_bw w) (a_pf A)) = Ok tt /\
     ofl w' a = false /\ ouc w' a = false /\
     (exists A', w_accts w' a = Some A' /\ a_pf A' = a_pf A) /\ w_bw w' = w_bw w.
 Proof.
